@@ -98,6 +98,28 @@ func (udpEngine) Gen(seed uint64, params map[string]any) json.RawMessage {
 			a.Base = uint32(r.IntN(1 << 30))
 		}
 		n := 1 + r.IntN(24)
+		if r.IntN(4) == 0 {
+			// many holes: a long stream in which every second (or third) datagram is missing, arriving in a
+			// seeded order - more holes than one negative acknowledgement can list
+			a.Span = uint32(120 + r.IntN(400))
+			if a.Base > 1<<31 {
+				a.Base = ^uint32(0) - 1 - a.Span
+			}
+			stride := uint32(2 + r.IntN(2))
+			var pts [][2]uint32
+			for x := uint32(r.IntN(3)); x+1 < a.Span; x += stride {
+				w := uint32(0)
+				if stride == 3 && r.IntN(2) == 0 {
+					w = 1
+				}
+				pts = append(pts, [2]uint32{x, x + w})
+			}
+			if r.IntN(2) == 0 {
+				r.Shuffle(len(pts), func(i, j int) { pts[i], pts[j] = pts[j], pts[i] })
+			}
+			a.Ranges = append(a.Ranges, pts...)
+			n = r.IntN(6) // then a few ordinary ranges that close some of the holes
+		}
 		for i := 0; i < n; i++ {
 			from := uint32(r.IntN(int(a.Span)))
 			l := uint32(0)
